@@ -35,7 +35,7 @@ fn seed_bytes(seed: u64, worker: u64, stream: &str) -> [u8; 32] {
 fn quiet_panics() {
     std::panic::set_hook(Box::new(|info| {
         let name = std::thread::current().name().map(|s| s.to_string()).unwrap_or_default();
-        if name.starts_with("vt") {
+        if name.starts_with("vt") && std::env::var_os("FR_LOUD_PANICS").is_none() {
             return; // caught and recorded by the interpreter
         }
         eprintln!("panic on thread {:?}: {}", name, info);
@@ -683,6 +683,7 @@ fn replay(args: &[String]) -> i32 {
     let mut opts = spec.opts.clone();
     if arg(args, "--strict").is_some() {
         opts.exclude.clear();
+        opts.strict = true;
     }
     if let Some(hist) = v.get("history").and_then(|h| h.as_array()) {
         for hp in hist {
